@@ -1,1 +1,155 @@
-(* C12 stub: to be written *)
+(* C12 — Probes, timing and modify() report the right quantity at the right time.
+   Only statements, each closed by [exact], followed by Print Assumptions.
+   Model: Model/Run.v (sim = simulate_simple, adc_times = get_adc_times, modify_model = modify with the
+   default modifier, insert_E = the specification of modify).  S: any scalar ring; par, mkT, mkE, mkP,
+   pscale, is_one, pbig, pzero: the parameter values and operator constructors (arbitrary).            *)
+From Coq Require Import List ZArith QArith Qcanon.
+From EPG Require Import Scalar QI State Ops Run RunProofs.
+Import ListNotations.
+
+(* one entry per probe occurrence, in order; the j-th entry is the row of requested quantities of the
+   state reached by the operators that precede the j-th probe (each batch member run separately);
+   appending further items never changes what was recorded (snapshot semantics) *)
+Theorem C12_probe_count_order (S : ScalOps) (par : Type) (mkT : par -> par -> op S)
+    (mkE : Qc -> par -> par -> par -> op S) (mkP : Qc -> par -> op S)
+    (seq : list (item S par)) (ov : overrides S) (b : bstate S) (tic : Qc) :
+  length (fst (sim S par mkT mkE mkP seq ov b tic)) = count_probes S par seq /\
+  (forall j, (j < count_probes S par seq)%nat -> exists p, nth_probe S par seq j = Some p /\
+     nth j (fst (sim S par mkT mkE mkP seq ov b tic)) [] =
+     row_of p ov (map (run (ops_before S par mkT mkE mkP seq j)) b)) /\
+  (forall rest, firstn (count_probes S par seq) (fst (sim S par mkT mkE mkP (seq ++ rest) ov b tic)) =
+                fst (sim S par mkT mkE mkP seq ov b tic)).
+Proof. exact (probe_count_order S par mkT mkE mkP seq ov b tic). Qed.
+Print Assumptions C12_probe_count_order.
+
+(* acquisition times: those of get_adc_times; the j-th is the sum of the durations of all items up to and
+   including the j-th probe; non-decreasing when no duration is negative *)
+Theorem C12_times_cumsum (S : ScalOps) (par : Type) (mkT : par -> par -> op S)
+    (mkE : Qc -> par -> par -> par -> op S) (mkP : Qc -> par -> op S)
+    (seq : list (item S par)) (ov : overrides S) (b : bstate S) (tic : Qc) :
+  snd (sim S par mkT mkE mkP seq ov b tic) = adc_times_from seq tic /\
+  length (adc_times_from seq tic) = count_probes S par seq /\
+  (forall j, (j < count_probes S par seq)%nat ->
+     nth j (adc_times_from seq tic) (Q2Qc 0) = (tic + dur_upto S par seq j)%Qc) /\
+  ((forall i, In i seq -> (0 <= dur i)%Qc) -> sorted_from tic (adc_times_from seq tic)).
+Proof. exact (times_cumsum S par mkT mkE mkP seq ov b tic). Qed.
+Print Assumptions C12_times_cumsum.
+
+(* probe= override: same times, same number of rows; entry k of row j is the override probe's quantity
+   (its own weights / reduce) of the state at the j-th in-sequence probe, post-processed by THAT probe's
+   phase compensation; a None entry records the in-sequence probe itself *)
+Theorem C12_override_keeps_when_and_post (S : ScalOps) (par : Type) (mkT : par -> par -> op S)
+    (mkE : Qc -> par -> par -> par -> op S) (mkP : Qc -> par -> op S)
+    (seq : list (item S par)) (ov : overrides S) (b : bstate S) (tic : Qc) :
+  ov <> [] ->
+  snd (sim S par mkT mkE mkP seq ov b tic) = snd (sim S par mkT mkE mkP seq [] b tic) /\
+  length (fst (sim S par mkT mkE mkP seq ov b tic)) = length (fst (sim S par mkT mkE mkP seq [] b tic)) /\
+  (forall j p, nth_probe S par seq j = Some p ->
+     nth j (fst (sim S par mkT mkE mkP seq ov b tic)) [] =
+       map (fun pb => ppost p (pacq (match pb with Some q => q | None => p end)
+                                    (map (run (ops_before S par mkT mkE mkP seq j)) b))) ov /\
+     nth j (fst (sim S par mkT mkE mkP seq [] b tic)) [] =
+       [ppost p (pacq p (map (run (ops_before S par mkT mkE mkP seq j)) b))]).
+Proof. exact (override_keeps_when_and_post S par mkT mkE mkP seq ov b tic). Qed.
+Print Assumptions C12_override_keeps_when_and_post.
+
+(* ADC phase compensation: recorded = quantity * phasor (after weights and reduction); a unit-modulus
+   phasor leaves the modulus unchanged *)
+Theorem C12_adc_phase (S : ScalOps) (L : ScalLaws S) (p pb : probe S) (ph : S) (b : bstate S) :
+  pphasor p = Some [ph] ->
+  acquire pb (ppost p) b = map (fun v => (v * ph)%K) (pacq pb b) /\
+  ((ph * kconj ph)%K = k1 ->
+   List.Forall2 (fun r v => (r * kconj r)%K = (v * kconj v)%K) (acquire pb (ppost p) b) (pacq pb b)).
+Proof. exact (adc_phase S L p pb ph b). Qed.
+Print Assumptions C12_adc_phase.
+
+(* un-batched plain Adc(attr, phase): the j-th recorded number is phasor * attr(state after the prefix) *)
+Theorem C12_probe_value_unbatched (S : ScalOps) (par : Type) (mkT : par -> par -> op S)
+    (mkE : Qc -> par -> par -> par -> op S) (mkP : Qc -> par -> op S)
+    (seq : list (item S par)) (s : sm S) (tic : Qc) (j : nat) (p : probe S) (ph : S) :
+  nth_probe S par seq j = Some p -> pweights p = None -> reduces p = false -> pphasor p = Some [ph] ->
+  nth j (fst (sim S par mkT mkE mkP seq [] [s] tic)) [] =
+  [[(qeval (pq p) (run (ops_before S par mkT mkE mkP seq j) s) * ph)%K]].
+Proof. exact (probe_value_unbatched S par mkT mkE mkP seq s tic j p ph). Qed.
+Print Assumptions C12_probe_value_unbatched.
+
+(* weights along the batch axis: weighted sum when reducing (default with weights, True, axes),
+   pointwise products with reduce=False, sum times the weight for a single weight *)
+Theorem C12_weights_reduce (S : ScalOps) (L : ScalLaws S) (p : probe S) (w : value S) (b : bstate S) :
+  pweights p = Some w ->
+  (length w = length b -> preduce p <> RFalse -> pacq p b = [wsum S (map (qeval (pq p)) b) w]) /\
+  (length w = length b -> preduce p = RFalse ->
+     pacq p b = map (fun uv => (fst uv * snd uv)%K) (combine (map (qeval (pq p)) b) w)) /\
+  (forall c, w = [c] -> preduce p <> RFalse -> pacq p b = [(ksum (map (qeval (pq p)) b) * c)%K]).
+Proof. exact (weights_reduce S L p w b). Qed.
+Print Assumptions C12_weights_reduce.
+
+Theorem C12_reduce_only (S : ScalOps) (p : probe S) (b : bstate S) :
+  pweights p = None ->
+  pacq p b = if reduces p then [ksum (map (qeval (pq p)) b)] else map (qeval (pq p)) b.
+Proof. exact (reduce_only S p b). Qed.
+Print Assumptions C12_reduce_only.
+
+(* MultiOperator.duration (sum accumulated by append) = sum of the durations of the flattened members *)
+Theorem C12_multi_duration (S : ScalOps) (par : Type) (t : tree S par) :
+  tree_dur t = total_dur S par (flat t).
+Proof. exact (tree_dur_flat S par t). Qed.
+Print Assumptions C12_multi_duration.
+
+(* modify(): the flattened result is the original sequence with flip angles scaled and, after every item of
+   positive duration, an evolution (E, or P when only g is given) of that duration and own duration 0 —
+   for every sequence in which equal object identities mean equal operators (memo per object) *)
+Theorem C12_modify_flat (S : ScalOps) (par : Type) (pscale : par -> par -> par) (is_one : par -> bool)
+    (pbig pzero : par) (l : list (tree S par)) (P : mparams par) :
+  ids_consistent S par (flat_seq l) ->
+  flat_seq (modify_model S par pscale is_one pbig pzero l P) =
+  insert_E S par pscale is_one pbig pzero (flat_seq l) P.
+Proof. exact (modify_flat S par pscale is_one pbig pzero l P). Qed.
+Print Assumptions C12_modify_flat.
+
+Theorem C12_modify_equiv (S : ScalOps) (par : Type) (mkT : par -> par -> op S)
+    (mkE : Qc -> par -> par -> par -> op S) (mkP : Qc -> par -> op S)
+    (pscale : par -> par -> par) (is_one : par -> bool) (pbig pzero : par)
+    (l : list (tree S par)) (P : mparams par) (ov : overrides S) (b : bstate S) :
+  ids_consistent S par (flat_seq l) ->
+  simulate_model S par mkT mkE mkP (modify_model S par pscale is_one pbig pzero l P) ov b =
+  simulate_model S par mkT mkE mkP (map Leaf (insert_E S par pscale is_one pbig pzero (flat_seq l) P)) ov b.
+Proof. exact (modify_equiv S par mkT mkE mkP pscale is_one pbig pzero l P ov b). Qed.
+Print Assumptions C12_modify_equiv.
+
+Theorem C12_modify_times (S : ScalOps) (par : Type) (pscale : par -> par -> par) (is_one : par -> bool)
+    (pbig pzero : par) (l : list (tree S par)) (P : mparams par) :
+  ids_consistent S par (flat_seq l) ->
+  get_adc_times (modify_model S par pscale is_one pbig pzero l P) = get_adc_times l.
+Proof. exact (modify_times S par pscale is_one pbig pzero l P). Qed.
+Print Assumptions C12_modify_times.
+
+(* every element returned by modify() keeps the duration of the operator it replaces; probes are kept *)
+Theorem C12_modify_keeps_durations_and_probes (S : ScalOps) (par : Type) (pscale : par -> par -> par)
+    (is_one : par -> bool) (pbig pzero : par) (P : mparams par) :
+  (forall i : item S par, tree_dur (modifier S par pscale is_one pbig pzero P i) = dur i) /\
+  (forall seq, count_probes S par (insert_E S par pscale is_one pbig pzero seq P) = count_probes S par seq).
+Proof.
+  exact (conj (modifier_dur S par pscale is_one pbig pzero P)
+              (fun seq => insert_E_probes S par pscale is_one pbig pzero seq P)).
+Qed.
+Print Assumptions C12_modify_keeps_durations_and_probes.
+
+(* non-vacuity: a concrete timed sequence on the executed instance (the same object used twice) meets the
+   hypothesis of the modify theorems, and the model computes the expected values and times for it *)
+Example C12_nonvacuous :
+  let w : item QIops Qc := IOp 0 (DOp (@OWait QIops)) (Q2Qc (3 # 2)) in
+  let t : item QIops Qc := IOp 3 (DT (Q2Qc 90) (Q2Qc 0)) (Q2Qc (1 # 2)) in
+  let a : item QIops Qc := IProbe 6 (mkProbe (@QZ0 QIops) None RNone (Some [qi 0 1 1 1])) (Q2Qc 0) in
+  let l := [Leaf t; Node true [Leaf w; Leaf a]; Leaf w; Leaf a] in
+  ids_consistent QIops Qc (flat_seq l) /\
+  get_adc_times (modify_model QIops Qc Qcmult (Qc_eq_bool (Q2Qc 1)) (Q2Qc 10000000000) (Q2Qc 0) l
+                   (mkMP None (Some (Q2Qc 50)) None (Some (Q2Qc (1 # 2))))) = [Q2Qc 2; Q2Qc (7 # 2)] /\
+  fst (simulate_model QIops Qc (fun _ _ => OWait) (fun _ _ _ _ => OSpoil) (fun _ _ => OWait) l []
+         [@init QIops (qr 2 1)]) = @Single QIops [[qi 0 1 2 1]; [qi 0 1 2 1]].
+Proof.
+  split; [|split; vm_compute; reflexivity].
+  intros i j Hi Hj. simpl in Hi, Hj.
+  repeat (destruct Hi as [<-|Hi]; [|]); try contradiction;
+  repeat (destruct Hj as [<-|Hj]; [|]); try contradiction; simpl; intros H; try reflexivity; discriminate.
+Qed.
